@@ -73,10 +73,30 @@ func DeclareURL(raw, scheme, hostname, port, path, rawquery, fragment string) {
 	})
 }
 
-// DeclareURLHost is DeclareURL with the complete authority (hostname plus optional ":port")
-// given as host, and hostname being what (*URL).Hostname() returns.
-func DeclareURLHost(raw, scheme, host, hostname, path, rawquery, fragment string) {
-	checkURL(raw, scheme, hostname, path, rawquery, fragment, func(h string) bool { return h == host })
+// DeclareURLParts declares raw to be exactly the canonical concatenation
+//   [scheme "://" | "//" when scheme is ""] hostLit portPart path ["?" rawquery] ["#" fragment]
+// of delimiter-free components (hostLit a registered name or a bracketed IPv6 literal, portPart ""
+// or ":" digits*, path "" or "/..."; no bare "?" or "#"). Under this contract the decomposition is
+// unique, which the engine uses to compare two declared URLs component-wise.
+func DeclareURLParts(raw, scheme, hostLit, portPart, path, rawquery, fragment string) {
+	want := "//"
+	if scheme != "" {
+		want = scheme + "://"
+	}
+	want += hostLit + portPart + path
+	if rawquery != "" {
+		want += "?" + rawquery
+	}
+	if fragment != "" {
+		want += "#" + fragment
+	}
+	if raw != want {
+		declFail(raw, "canonical concatenation", raw, want)
+	}
+	if portPart != "" && !strings.HasPrefix(portPart, ":") {
+		declFail(raw, "port part", portPart, ":digits")
+	}
+	checkURL(raw, scheme, hostLit, path, rawquery, fragment, func(h string) bool { return h == hostLit+portPart })
 }
 
 // IteStr is a non-forking string if-then-else.
